@@ -1,7 +1,7 @@
 """C13 -- see props/driver.py"""
 import driver
 
-EXPLANATION = "History independence of solve(): pre-state is ARBITRARY (every work vector token, residual/error history length, smoother switch in combined mode, counters). The real solve() text is verified to return the specification iterate S[k] (S[0] = start-up value, S[k+1] = Cycle(S[k]) with the smoother switch sequence F[k] that setup() establishes and the documented 0.7 rule), k = iteration count; residual and error histories contain exactly this solve's entries; right-hand sides untouched. Hence results are functions of options and problem data only. setup() itself (rebuilding levels_) is not extracted (std::unique_ptr/std::vector code): the def-before-use of its members is not decided."
+EXPLANATION = "History independence of solve(): pre-state is ARBITRARY (every work vector token, residual/error history length, smoother switch in combined mode, counters). The real solve() text is verified to return the specification iterate S[k] (S[0] = start-up value, S[k+1] = Cycle(S[k]) with the smoother switch sequence F[k] that setup() establishes and the documented 0.7 rule), k = iteration count; residual and error histories contain exactly this solve's entries; right-hand sides untouched. Hence results are functions of options and problem data only. The first half of setup() (creating grids, caches and the Level objects: std::unique_ptr / std::vector code) is not extracted."
 
 
 def run(tier, seed, work):
